@@ -1,5 +1,5 @@
 //@ assume: libsecp256k1 (commit, blind_switch) and BIP32 child derivation (ExtendedPrivKey::ckd_priv) are uninterpreted functions; Identifier::to_path is an uninterpreted function (its byte layout is decided by Kani in C20/paths); the hasher is an opaque scratch object; one error type
-//@ assume: assumed precondition: the identifier's depth byte is at most 4 (for a larger one the real loop indexes path[4] and panics -- identifiers built by this code base clamp the depth, see C20/view_key_check)
+//@ assume: NO precondition on the identifier: an identifier whose depth byte exceeds the four path elements (accepted by Identifier::from_hex / from_bytes) has no key -- derive_key answers an error for it, it does not index past the path (found violated on the pinned tree: finding F24, repaired); T3: format! payload replaced; `Error::Transaction(..)` is one more error
 //@ assume: decided here (C20, 'key derivation and the resulting commitment are deterministic'): ExtKeychain::derive_key(amount, id, switch) is the master key pushed through ckd_priv along EXACTLY the first `depth` elements of id's path, in order, then blind-switched with the amount iff switch is Regular (returned as is for None); ExtKeychain::commit(amount, id, switch) is secp.commit(amount, that key): both are functions of (master key, id, amount, switch) alone and fail only if one of those steps fails
 //@ assumed_items: 7
 //@ fns: ExtKeychain::derive_key, ExtKeychain::commit
@@ -14,7 +14,10 @@ pub struct ChildNumber { pub n: u32 }
 #[derive(Clone, Copy, PartialEq, Eq)]
 pub enum SwitchCommitmentType { None, Regular }
 #[derive(Clone, Copy)]
-pub enum Error { Secp, Other }
+pub enum Error { Secp, Other, Transaction(Msg) }
+#[derive(Clone, Copy, PartialEq, Eq)]
+pub struct Msg;
+pub fn fmtmsg() -> Msg { Msg }
 #[derive(Clone, Copy)]
 pub struct Identifier { pub i: u64 }
 pub struct ExtKeychainPath { pub depth: u8, pub path: [ChildNumber; 4] }
@@ -49,15 +52,14 @@ proof fn lemma_none_stays(master: ExtendedPrivKey, p: ExtKeychainPath, n: int, m
     decreases m - n
 { if n < m { lemma_none_stays(master, p, n, m - 1); } }
 pub open spec fn sp_derive_key(master: ExtendedPrivKey, amount: u64, id: Identifier, sw: SwitchCommitmentType) -> Option<SecretKey> {
-    match derived(master, sp_path(id), sp_path(id).depth as int) { None => None, Some(k) => match sw {
+    if sp_path(id).depth > 4 { None } else { match derived(master, sp_path(id), sp_path(id).depth as int) { None => None, Some(k) => match sw {
         SwitchCommitmentType::None => Some(k.secret_key),
-        SwitchCommitmentType::Regular => match sp_blind_switch(amount, k.secret_key) { Ok(s) => Some(s), Err(_) => None } } }
+        SwitchCommitmentType::Regular => match sp_blind_switch(amount, k.secret_key) { Ok(s) => Some(s), Err(_) => None } } } }
 }
 pub struct ExtKeychain { pub secp: Secp256k1, pub master: ExtendedPrivKey, pub hasher: BIP32GrinHasher }
 impl ExtKeychain {
 //@ extract keychain/src/keychain.rs :: impl Keychain for ExtKeychain::derive_key
-//@   requires:
-//@+    sp_path(*id).depth <= 4,
+//@   format_as `fmtmsg()`
 //@   ensures:
 //@+    r matches Ok(k) ==> sp_derive_key(self.master, amount, *id, switch) == Some(k),
 //@+    r.is_err() ==> sp_derive_key(self.master, amount, *id, switch).is_none(),
@@ -68,8 +70,6 @@ impl ExtKeychain {
 //@+    proof { if sp_ckd(ext_key, p.path@[i as int]).is_err() { lemma_none_stays(self.master, p, i + 1, p.depth as int); } }
 //@ end
 //@ extract keychain/src/keychain.rs :: impl Keychain for ExtKeychain::commit
-//@   requires:
-//@+    sp_path(*id).depth <= 4,
 //@   ensures:
 //@+    r matches Ok(c) ==> (sp_derive_key(self.master, amount, *id, switch) matches Some(k) && sp_commit(amount, k) == Ok::<Commitment, Error>(c)),
 //@ end
